@@ -172,6 +172,34 @@ fn c01_polyn_xs<const N: usize>(nx: usize) {
 #[kani::proof] #[kani::unwind(15)] fn c01_polyn_pm1_11() { c01_polyn_xs::<11>(3) }
 #[kani::proof] #[kani::unwind(15)] fn c01_polyn_pm1_12() { c01_polyn_xs::<12>(3) }
 
+// long vectors: one symbolic integer-valued coefficient at a symbolic position, all others zero, x in {1, -1}:
+// every coefficient position of a vector of length N contributes with its own power (catches dropped / misplaced high coefficients)
+fn c01_polyn_impulse<const N: usize>() {
+    let i: usize = kani::any();
+    kani::assume(i < N);
+    let k = small_any();
+    let mut c = [0.0f64; N];
+    c[i] = k;
+    let p = PolyN(c.to_vec());
+    let xs = [1.0f64, -1.0];
+    let mut xi = 0;
+    while xi < 2 {
+        let x = xs[xi];
+        let got = p.evaluate(x);
+        let mut acc = c[N - 1];
+        let mut j = N - 1;
+        while j > 0 {
+            j -= 1;
+            acc = acc.mul_add(x, c[j]);
+        }
+        assert!(bits_eq(got, acc), "[spec] PolyN::evaluate is the Horner recursion over the coefficients, highest first (impulse at a symbolic position)");
+        xi += 1;
+    }
+    kani::cover!(true, "[cover] reachable");
+}
+#[kani::proof] #[kani::unwind(26)] fn c01_polyn_impulse_24() { c01_polyn_impulse::<24>() }
+#[kani::proof] #[kani::unwind(42)] fn c01_polyn_impulse_40() { c01_polyn_impulse::<40>() }
+
 // ------------------------------------------------------------------------------------------- C17: approximate equality
 // abs_diff_eq / relative_eq of a polynomial hold exactly when they hold for every pair of corresponding coefficients.
 // Numbers: integer-valued doubles in [-100,100]; tolerances from a concrete set (products need a concrete factor).
